@@ -146,7 +146,9 @@ func readByte(r io.Reader) (int64, byte, error) {
 		return 1, v, err
 	}
 	var v [1]byte
-	n, err := r.Read(v[:])
+	// io.ReadFull: a Reader may hand out the byte together with io.EOF,
+	// or return (0, nil) before it does
+	n, err := io.ReadFull(r, v[:])
 	return int64(n), v[0], err
 }
 
